@@ -159,6 +159,19 @@ class Case:
         self.proc = None
 
 
+MAX_RSS_KB = int(os.environ.get("VERIF_MAX_RSS_MB", "6000")) * 1024
+
+
+def _rss_kb(pid):
+    try:
+        for line in open("/proc/%d/status" % pid):
+            if line.startswith("VmRSS:"):
+                return int(line.split()[1])
+    except (OSError, ValueError):
+        pass
+    return 0
+
+
 SIGNAMES = {getattr(signal, n): n for n in dir(signal) if n.startswith("SIG") and not n.startswith("SIG_")}
 
 
@@ -176,15 +189,27 @@ def run_one(c):
     except OSError as e:
         raise HarnessError("cannot start %r: %s" % (c.cmd, e))
     c.proc = p
-    try:
-        out, err = p.communicate(input=c.stdin, timeout=c.timeout)
-    except subprocess.TimeoutExpired:
-        c.timed_out = True
+    c.mem_killed = False
+    deadline = t0 + c.timeout
+    first = True
+    while True:
         try:
-            os.killpg(p.pid, signal.SIGKILL)
-        except OSError:
-            pass
-        out, err = p.communicate()
+            out, err = p.communicate(input=c.stdin if first else None, timeout=min(2.0, max(0.05, deadline - time.time())))
+            break
+        except subprocess.TimeoutExpired:
+            first = False
+            rss = _rss_kb(p.pid)
+            if time.time() >= deadline or rss > MAX_RSS_KB:
+                if rss > MAX_RSS_KB:
+                    c.mem_killed = True
+                else:
+                    c.timed_out = True
+                try:
+                    os.killpg(p.pid, signal.SIGKILL)
+                except OSError:
+                    pass
+                out, err = p.communicate()
+                break
     c.proc = None
     c.rc = p.returncode
     c.out = out.decode("utf-8", "replace")
@@ -223,7 +248,7 @@ def run_cases(cases, cap=None, progress=None, max_violations=12):
     def worker(c):
         try:
             run_one(c)
-            if c.timed_out and c.attempts < 2 and not state["stop"]:
+            if c.timed_out and not getattr(c, "mem_killed", False) and c.attempts < 2 and not state["stop"]:
                 run_one(c)   # one automatic re-run before anything is reported
             if state["stop"] and (c.timed_out or (c.rc is not None and c.rc < 0 and not c.viol and c.rc == -9)):
                 c.skipped = True
@@ -269,6 +294,8 @@ def classify(c):
     """-> (status, key, detail); status in ok | violation | inconclusive"""
     if c.viol:
         return "violation", c.viol[0], c.viol[1]
+    if getattr(c, "mem_killed", False):
+        return "violation", "runaway-memory:" + (c.tag.split(":")[0] or "case"), "resident set grew beyond %d MB; killed by the driver" % (MAX_RSS_KB // 1024)
     if c.timed_out:
         return "hang", "hang:" + (c.tag.split(":")[0] or "case"), \
             "no verdict within %ds wall time (attempted %d times)" % (c.timeout, c.attempts)
